@@ -1,6 +1,9 @@
+mod canister;
+mod ledger;
 mod out;
 mod rng;
 mod wd;
+mod world;
 
 use std::path::PathBuf;
 
@@ -45,6 +48,7 @@ fn main() {
     let ctx = Ctx { seed, cases, thorough, shard, shards, only_case };
     match stream.as_str() {
         "wd" => wd::run(&mut out, &ctx),
+        "ledger" => ledger::run(&mut out, &ctx),
         other => { eprintln!("unknown stream {}", other); std::process::exit(2); }
     }
     out.finish(&[("seed", seed.to_string()), ("stream", out::json_str(&stream))]);
